@@ -39,8 +39,11 @@ pub fn check(t: &Trace<'_>, out: &mut CaseOut) -> bool {
             if let Some(id) = &ci.assigned {
                 expect_id = id.clone();
             }
-        } else if ci.connack_consumed && matches!(ci.connack, Some((false, 0, _))) {
-            // fresh-session CONNACK consumed, then rejected for its properties: local session already discarded
+        } else if ci.connack_consumed && matches!(ci.connack, Some((false, 0, _))) && had_success {
+            // fresh-session CONNACK consumed, then rejected for its properties: the local session is
+            // already discarded, and whether the next CONNECT asks to resume is not specified.
+            // (Without any earlier success the answer is clear: no CONNACK has been successful
+            // yet, so the next CONNECT still asks for a clean start.)
             dont_care = true;
             if let Some(id) = &ci.assigned {
                 // the identifier may or may not have been adopted before the failure
